@@ -174,6 +174,14 @@ def run(F, R):
             continue
         ak = (desc, census.site_what(W, bv, s_))
         e = allow_idx.get(ak)
+        if e is None:
+            # second chance: the only site of this kind in the function the entry was recorded for (its operand may be spelt
+            # differently after a refactoring, e.g. produced by an async helper that is not inlined)
+            same_fn = [e2 for e2 in allow if e2.get("crate", "omaha_client") == "omaha_client" and e2["site"] == desc and e2.get("seen_in") == bv.name]
+            same_kind_here = [x for x in sites if x["bv"] is bv and x["desc"] == desc]
+            if len(same_fn) == 1 and len(same_kind_here) == 1:
+                e = same_fn[0]
+                ak = (e["site"], e["what"])
         if e:
             used_allow.add(ak)
             nallow += 1
